@@ -285,11 +285,12 @@ for _u in UNITS:
     if _u.name in OBSERVED:
         _u.min_obl = max(1, int(0.7 * OBSERVED[_u.name]))
 
-# ---- STRETCH (thorough): stepwise congruence r == a b (mod p) of fe_mul_inner relative to the uninterpreted multiplier (see arith_fecong.c)
-FC = "harness/C05/arith_fecong.c"
-UNITS.append(U("C05.fe_mul_cong_steps", ["C05"], FC, "h_fe_mul_cong_steps", defs=["CONG_OBL=1"], functions=[], tier="thorough", timeout=1800, replay=False, solver="cadical",
-               note="every bracket of the function's comment invariants equals the rule book, for the harness-side witness run"))
-UNITS.append(U("C05.fe_mul_cong_miter", ["C05"], FC, "h_fe_mul_cong_miter", verify=True, replace=UF, functions=["secp256k1_fe_mul_inner"], tier="thorough", timeout=1800, replay=False, solver="cadical",
-               note="real fe_mul_inner output == witness output"))
-UNITS.append(U("C05.fe_mul_cong_rule", ["C05"], FC, "h_fe_mul_cong_rule", functions=[], tier="thorough", timeout=1800, replay=False, solver="cadical",
-               note="the four bookkeeping rules change G(e) = sum e_k 2^(52k) as stated, for arbitrary coefficient vectors"))
+# ---- STRETCH (not registered): stepwise congruence r == a b (mod p) of fe_mul_inner relative to the uninterpreted multiplier, harness/C05/arith_fecong.c.
+# Status after the 2.5 h time box (CaDiCaL):
+#   h_fe_mul_cong_steps (-DCONG_OBL=1): PASSES, 1567 obligations, 764 s - every bracket of the function's comment invariants equals the rule book
+#                                       of the harness-side witness run, the collected columns are the schoolbook column sums, K < 2^330;
+#   h_fe_mul_cong_miter (verify=True, replace u128_mul/u128_accum_mul): real output limb == witness limb - UNDECIDED at 1800 s (twice);
+#   h_fe_mul_cong_rule: the four bookkeeping rules change G(e) = sum e_k 2^(52k) as stated - UNDECIDED at 1800 s (704-bit adder miters).
+# Earlier formulation (640-bit invariants Added == bracket + K p with havoc between cut points): only invariant 1 of 13 closed in 150 s per step;
+# z3 and cvc5 back ends (cbmc --z3 / --cvc5) did not close a single step in 200-300 s either.
+# Without the miter the passing steps unit says nothing about the real code, so NONE of the three is listed; r == a b (mod p) stays assumed residue.
